@@ -8,6 +8,7 @@ import xarray as xr
 from hypothesis import strategies as st
 
 from vlib import gen
+from vlib import build as vbuild
 from vlib.build import quiet
 from vlib.runner import Sub, Violation
 
@@ -100,6 +101,7 @@ def grid_cases(draw):
     case["extra"] = [draw(gen.finite(-100, 100)) for _ in range(case["n_extra"])]
     case["nonuniform"] = draw(st.booleans())
     case["explicit_region"] = draw(st.booleans())
+    case["orders"] = draw(vbuild.orders_strategy())
     return case
 
 
@@ -170,7 +172,9 @@ def check_grid(case, ctx):
             n_extra = 0
         else:
             m_e, m_n = np.meshgrid(ee1, nn1)
-            coords = (m_e, m_n) + tuple(np.full(m_e.shape, v) for v in case["extra"])
+            lay = vbuild.Lay(case.get("orders"))
+            m_e, m_n = lay(m_e.ravel(), m_e.shape), lay(m_n.ravel(), m_n.shape)
+            coords = (m_e, m_n) + tuple(lay(np.full(m_e.size, v), m_e.shape) for v in case["extra"])
             n_extra = len(case["extra"])
         call["coordinates"] = coords
         exp_e, exp_n = ee1, nn1
@@ -219,6 +223,8 @@ def check_grid(case, ctx):
         nm = base if k == 0 else "%s_%d" % (base, k)
         ctx.check(nm in ds.coords, "extra coordinate %r missing (coords: %r)", nm, list(ds.coords))
         ctx.check(ds.coords[nm].dims == dims and np.all(ds.coords[nm].values == case["extra"][k]), "extra coordinate %r is not the constant %r on the grid", nm, case["extra"][k])
+    if case["mode"] == "coords2d":
+        ctx.label("layouts_" + "".join(sorted(set(case.get("orders") or ["C"]))))
     ctx.label(case["gridder"], case["mode"], "proj_" + (case["projection"]["kind"] if proj is not None else "none"), "comps%d" % ncomp, "extra%d" % n_extra,
               "pixel" if case["pixel"] else "gridline")
     if "region" not in call and "coordinates" not in call:
